@@ -510,7 +510,18 @@ func runCheck(repo, root, prop, tier string, seed int) *CheckResult {
 					expected = true
 				}
 			}
-			if expected {
+			if o.Vacuity {
+				mine := len(o.Props) == 0
+				for _, p := range o.Props {
+					if p == prop {
+						mine = true
+					}
+				}
+				if mine {
+					obls = append(obls, &Obligation{Name: o.Name, Func: o.Func, Kind: "vacuity", Props: o.Props, Src: o.Src, Pos: o.Pos,
+						Result: &SolverResult{Status: "vacuous", Output: "the clause's condition is unsatisfiable where it is attached: it states nothing (wrong call-site ordinal?)"}})
+				}
+			} else if expected {
 				res.CoverUnsat = append(res.CoverUnsat, o.Name+" (expected: dead by contract)")
 			} else {
 				res.CoverUnsat = append(res.CoverUnsat, o.Name)
